@@ -19,8 +19,8 @@ from ropt.plan import OptimizerContext, Plan
 ID = "C20"
 LEVEL = "fault_enumeration"
 RULE = (
-    "configurations of in-process methods (slsqp unconstrained / with non-linear+linear constraints and a mask / with "
-    "relative perturbations and several samplers; nelder-mead with a max_functions stop; differential evolution serial "
+    "configurations of in-process methods (slsqp unconstrained / with non-linear+linear constraints and a mask / with an output directory and redirected output / with "
+    "relative perturbations and several samplers; l-bfgs-b with 3000 variables (messages above the pipe capacity); nelder-mead with a max_functions stop; differential evolution serial "
     "and vectorized with NaN failures and realization_min_success 0; a failure leading to TOO_FEW_REALIZATIONS; a user "
     "abort raised by an observer) are run in-process and through external/<method>: the traces (every evaluator request "
     "bitwise, every delivered result array, exit code) must be identical. Crash points: the optimizer process is killed "
@@ -72,6 +72,11 @@ CONFIGS: dict[str, dict[str, Any]] = {
                     "gradient": {"number_of_perturbations": 2, "perturbation_magnitudes": 0.02}},
     "de-vectorized-large": {"optimizer": {"method": "differential_evolution", "parallel": True,
                                           "options": {"seed": 3, "popsize": 4, "maxiter": 1, "tol": 0.0}}, "_n": 9},
+    # the configuration message alone (~100 KiB) is larger than the capacity of a pipe
+    "lbfgsb-3000-variables": {"optimizer": {"method": "l-bfgs-b", "options": {"maxiter": 1}}, "_n": 3000,
+                              "gradient": {"number_of_perturbations": 1, "perturbation_magnitudes": 0.02}},
+    # path-valued options (output directory, redirected output)
+    "slsqp-output-dir": {"optimizer": {"method": "slsqp", "options": {"maxiter": 2}}, "_paths": True},
     # one evaluation takes longer than any time-out inside the protocol (11 s; only slept in the external run)
     "slsqp-slow-evaluation": {"optimizer": {"method": "slsqp", "options": {"maxiter": 2}}, "_sleep": (1, 11.0)},
     "de-explicit-start-masked": {"optimizer": {"method": "differential_evolution", "options": {"seed": 5, "popsize": 2, "maxiter": 1, "tol": 0.0}},
@@ -123,6 +128,11 @@ def build(name: str, external: bool) -> tuple[dict[str, Any], AffineEvaluator, i
             cfg[key] = {**cfg[key], **val}
         else:
             cfg[key] = val
+    if spec.get("_paths"):
+        import tempfile
+
+        out_dir = tempfile.mkdtemp(prefix="c20-out-")
+        cfg["optimizer"] = {**cfg["optimizer"], "output_dir": out_dir, "stdout": "optimizer.out"}
     if external:
         cfg["optimizer"] = {**cfg["optimizer"], "method": "external/" + cfg["optimizer"]["method"]}
     c_n = 1 if "nonlinear_constraints" in cfg else 0
@@ -247,6 +257,10 @@ def run_config(name: str, external: bool, kill: tuple[Any, ...] | None = None, r
             os.kill(pid, signal.SIGKILL)
         except OSError:
             pass
+    if isinstance(cfg["optimizer"].get("output_dir"), str) and "c20-out-" in cfg["optimizer"]["output_dir"]:
+        import shutil
+
+        shutil.rmtree(cfg["optimizer"]["output_dir"], ignore_errors=True)
     return out
 
 
@@ -408,10 +422,13 @@ def run_case(case: dict[str, Any]) -> dict[str, Any]:
         return run_child_error(case)
     if kind == "equal":
         a = run_config(name, False)
+        signal.signal(signal.SIGALRM, _alarm)
+        signal.alarm(120)  # (run_config clears the alarm; an external run takes a few seconds, the slow-evaluation one ~15 s)
         b = run_config(name, True)
         if a["exc"] is not None:
             raise a["exc"]
-        check(b["exc"] is None and not b["hang"], "external-exception", f"external run raised {b['exc']!r}", case)
+        check(not b["hang"], "hang", "the external run did not end within 120 s (the in-process run of the same configuration ended normally)", case)
+        check(b["exc"] is None, "external-exception", f"external run raised {b['exc']!r}", case)
         check(b["code"] == a["code"], "exit-code-differs", f"in-process {a['code']!r}, external {b['code']!r}", case)
         check(b["calls"] == a["calls"], "trace-differs", f"{a['calls']} evaluations in-process, {b['calls']} through the external process", case)
         for i, (x, y) in enumerate(zip(a["requests"], b["requests"])):
